@@ -318,7 +318,9 @@ func lookup(instr *ssa.Lookup, x, idx value) value {
 		var ok bool
 		switch x := x.(type) {
 		case map[value]value:
-			v, ok = x[idx]
+			if k, found := mapFindKey(x, idx); found {
+				v, ok = x[k]
+			}
 		case *hashmap:
 			v = x.lookup(idx.(hashable))
 			ok = v != nil
@@ -998,7 +1000,9 @@ func callBuiltin(caller *frame, callpos token.Pos, fn *ssa.Builtin, args []value
 	case "delete": // delete(map[K]value, K)
 		switch m := args[0].(type) {
 		case map[value]value:
-			delete(m, args[1])
+			if k, found := mapFindKey(m, args[1]); found {
+				delete(m, k)
+			}
 		case *hashmap:
 			m.delete(args[1].(hashable))
 		default:
@@ -1557,4 +1561,68 @@ func fandbits[F floaty](x, y F) F {
 		*(*uint64)(unsafe.Pointer(&x)) &= *(*uint64)(unsafe.Pointer(&y))
 	}
 	return x
+}
+
+// mapFindKey resolves key against the keys of m. With symbolic keys involved it forks on
+// equality with each existing key (plus "none of them").
+func mapFindKey(m map[value]value, key value) (value, bool) {
+	ks, isSymKey := key.(sv)
+	anySym := isSymKey
+	if !anySym {
+		for k := range m {
+			if isSym(k) {
+				anySym = true
+				break
+			}
+		}
+	}
+	if !anySym {
+		_, ok := m[key]
+		return key, ok
+	}
+	if _, ok := m[key]; ok {
+		return key, true // syntactically identical key
+	}
+	var st *Store
+	if isSymKey {
+		st = ks.t.store
+	}
+	keys := make([]value, 0, len(m))
+	for k := range m {
+		keys = append(keys, k)
+		if st == nil {
+			if s, ok := k.(sv); ok {
+				st = s.t.store
+			}
+		}
+	}
+	sort.SliceStable(keys, func(i, j int) bool { return keyLess(keys[i], keys[j]) })
+	kt := toTerm(st, key)
+	var conds []*Term
+	none := st.Bool(true)
+	var cand []value
+	for _, k := range keys {
+		if !isSym(k) && !isSymKey {
+			continue // concrete vs concrete, unequal
+		}
+		c := st.Eq(kt, toTerm(st, k))
+		if c.isConst() {
+			if c.boolVal() {
+				return k, true
+			}
+			continue
+		}
+		conds = append(conds, c)
+		cand = append(cand, k)
+		none = st.And(none, st.Not(c))
+	}
+	if len(conds) == 0 {
+		return key, false
+	}
+	conds = append(conds, none)
+	d := st.path.decide(conds, "map-key")
+	if d == len(conds)-1 {
+		return key, false
+	}
+	return cand[d], true
 }
